@@ -546,6 +546,64 @@ example :
         | _ => false)
      | none => false) = true := by decide +kernel
 
+/-! ### no internal outcome, the general corollary (partial)
+
+FULL STATEMENTS AIMED AT (not proved in general):
+
+`fit_no_internal` : `detB S → C01.Valid S doc → f ≤ t ≤ size doc → sl.wf → sl.noPartialNode S →
+  (slice nodes schema-valid) → replaceStep S doc f t sl ≠ .error .raises ∧ ≠ .error .negInsert`
+`replaceStep_total` : … `→ ∃ r, replaceStep S doc f t sl = .ok r`.
+
+What is proved: the failure classes (`replaceStep_failures`), that `outOfFuel` is excluded by the
+termination guard (`replaceStep_not_outOfFuel`), hence `fit_no_internal_partial` /
+`replaceStep_total_partial` below; and the full statement for the *empty* slice — every deletion —
+in the next section (`delete_total`).  What is missing for non-empty slices: an invariant of
+`FitState` strong enough to show that none of the `raises` of the loop body is reached.  The places
+where the model (= the code) raises inside the loop are: `content_at` / `first_child` on an empty
+fragment in `find_fittable`, `open_more`, `drop_node`, `drop_from_fragment` (when `open_start`
+points below the first-child chain — `place_nodes` keeps `open_start` when it stops short of the end
+of a fragment above the open level, also upstream); `fill_before` answering `None` in
+`close_node_start` (the children of an open node of the slice are not completable); creating a filler
+node of a type with required attributes; `add_to_fragment` below the last-child chain of `placed`;
+`content_match_at(child_count)` on a partial node in `place_nodes` (the recorded finding
+`C11-fitter-partial-node`, excluded by the guard `Slice.noPartialNode`, PM/Fitter.lean, whose
+negation is the finding's class — compared exactly with harness/findings.py `partial_node_class`).
+The relational tie `fitGuards` (harness/rangeplan.py) checks on every generated request:
+guards true ⇒ the real `replace_step` did not raise and did return. -/
+
+/-- **`fit_no_internal_partial`** — with deterministic automata and a slice satisfying the
+    termination guard, `replace_step` does not end in `outOfFuel`: it returns, raises, or would need a
+    negative `insert`.  (Missing for the full `fit_no_internal`: excluding `raises` and `negInsert`
+    under `Slice.noPartialNode`; see the comment above.) -/
+theorem fit_no_internal_partial (S : Schema) (hdet : detB S = true) (doc : Node) (f t : Nat) (sl : Slice)
+    (hg : sl.termGuard = true) (e : FitErr) (h : replaceStep S doc f t sl = .error e) :
+    e = .raises ∨ e = .negInsert := by
+  rcases replaceStep_failures S doc f t sl e h with he | ⟨he, _⟩ | ⟨he, _⟩
+  · exact .inl he
+  · subst he
+    exact absurd h (replaceStep_not_outOfFuel S hdet doc f t sl hg)
+  · exact .inr he
+
+/-- **`replaceStep_total_partial`** — totality of the model up to raising: under the same
+    hypotheses `replaceStep` returns `None`, or a step — which then respects the request
+    (`fitter_respects`) —, or raises / needs a negative insert -/
+theorem replaceStep_total_partial (S : Schema) (hdet : detB S = true) (doc : Node) (f t : Nat) (sl : Slice)
+    (hft : f ≤ t) (hwf : sl.wf = true) (hg : sl.termGuard = true) :
+    replaceStep S doc f t sl = .ok none ∨
+    (∃ st, replaceStep S doc f t sl = .ok (some st) ∧
+      ((∀ F T G1 G2 sl' ins b, st = .replaceAround F T G1 G2 sl' ins b →
+        noText ((sliceToks' sl').drop ins) = true) → respects (ftoks doc.kids) f t sl st = true)) ∨
+    replaceStep S doc f t sl = .error .raises ∨ replaceStep S doc f t sl = .error .negInsert := by
+  cases h : replaceStep S doc f t sl with
+  | ok r =>
+    cases r with
+    | none => exact .inl rfl
+    | some st => exact .inr (.inl ⟨st, rfl, fun htail => fitter_respects S doc f t sl st hft hwf h htail⟩)
+  | error e =>
+    rcases fit_no_internal_partial S hdet doc f t sl hg e h with he | he
+    · subst he; exact .inr (.inr (.inl rfl))
+    · subst he; exact .inr (.inr (.inr rfl))
+
 /-! ### the fuelled searches the Fitter calls (PM/FillOrder.lean) -/
 
 /-- **`fill_before`'s fuel is enough**: `none` means that no filling exists (`isFill` is false for
